@@ -3,13 +3,17 @@ _materialize_reshape_shape.py.
 
 min_min_rule / max_max_rule / min_max_rule / max_min_rule   -- Op2(Op1(x, c...), d...)
   drawn: Op1, Op2 in {Min, Max} (biased to the rule under test, the other three combinations are also generated); arity of
-  each node 1..3 (arity 1 = no constant at all); dtype float32/float64/float16/int32/int64; x rank 0..3, dims 1..3, x a graph
+  each node 1..3 (arity 1 = no constant at all); dtype float32/float64/float16/int32/int64/int8/uint8; x rank 0..3, dims 1..3, x a graph
   input or the output of a node (type only known through value_info), declared dims static or symbolic; every constant
   independently: shape [] / [1] / [1,1] / [1]*(rank+1) / vector (last dim of x) / full shape of x, value from an edge list
   (negative, fractional, +-inf for floats, so lower > upper happens regularly), materialised as Constant node / initializer /
   overridable initializer-input; near-misses: a non-constant operand (second graph input, or Identity(constant)), x as the
   second operand of the inner node, inner node as second operand of the outer node; inner output also a graph output.
-  NOT enumerated: NaN constants, bfloat16 / 8- and 16-bit / unsigned ints, constants that broadcast x to a larger shape other
+  A drawn "clean" profile (6 of 10) restricts all operands to true constants with one element and arity >= 2 (the side
+  conditions of the two Clip fusions); for Max(Min(x, ub), lb) the lower bound is kept <= ub in 7 of 10 draws.  Constant VALUES
+  are a function of one integer seed drawn first (g.seed()), all structural choices are individual draws.
+  dtypes also int8 / uint8.
+  NOT enumerated: NaN constants, bfloat16 / 16-bit ints / uint16..64, constants that broadcast x to a larger shape other
   than through the leading-1 forms, opset < 13.
 
 successive_relu_rule / successive_clip_rule / successive_clip_relu_rule / successive_relu_clip_rule  -- Relu/Clip chains
@@ -17,9 +21,12 @@ successive_relu_rule / successive_clip_rule / successive_clip_relu_rule / succes
   max only (min omitted as "" ) / both / trailing inputs omitted; bound values from an edge list (negative, zero, fractional,
   inverted min > max within one Clip and across the two Clips); bound as Constant node / initializer / overridable
   initializer-input (near-miss) / graph input (near-miss) / Identity(constant) (near-miss); dtype float32/float64/float16/
-  int32/int64 (Relu on ints pins opset >= 14); x a graph input or a node output; static or symbolic dims; inner output also a
-  graph output; Clip-6 attribute form (min/max attributes) at opset 9/10.
-  NOT enumerated: non-scalar ([1]) bounds (invalid per spec), NaN bounds, unsigned / 8-bit types, bfloat16.
+  int32/int8 (+ int64/uint8 for Clip-only chains; Relu on ints pins opset >= 14; onnxruntime has no Relu-14 int64 kernel so that
+  combination is rare); x a graph input or a node output; static or symbolic dims; inner output also a graph output; Clip-6
+  attribute form (min/max attributes, float32) at opset 9/10.  "clean" profile (5 of 10): all bounds true constants.  Bound
+  VALUES are a function of one seed drawn first.  (The rules read the dtype of the Clip's first input, so they only fire when the
+  assembly mode gives the intermediate a value_info entry.)
+  NOT enumerated: non-scalar ([1]) bounds (invalid per spec), NaN bounds, uint16..64 / int16, bfloat16.
 
 cast_constant_of_shape_rule / cast_constant_of_shape_without_value_rule  -- Cast(ConstantOfShape(shape[, value=v]), to=t)
   drawn: value absent / present; v dtype over float16/32/64, (u)int8/16/32/64, bool; v from a per-dtype edge list (negative,
@@ -46,7 +53,8 @@ materialize_reshape_shape_rule  -- Reshape(x, shape) with a non-constant shape
   Concat(Shape<start,end>(x), const) / Concat(const [-1], const) / Concat of constants without -1 / Identity(const) /
   overridable initializer (near-miss: "already constant") / plain constant (near-miss) ; x dims static, one symbolic, two symbolic;
   zero-size x ((2,0), (0,3)) ; target rank 1..3 (rank-1 graph outputs are annotated [?] = exactly one symbolic dim); allowzero
-  attribute absent / 0 / 1 at opset >= 14; opset 13 pinned in 2 of 10; reshape output consumed by a further node or a graph output.
+  attribute absent / 0 / 1 at opset >= 14; opset 13 pinned in 2 of 10; reshape output consumed by a further node or a graph output;
+  graph outputs declared with static shapes (4 of 10 when no input dim is symbolic) or rank only.
   Whether the output shape is known statically / with one symbolic dim / two symbolic dims (near-miss) follows from the drawn
   assembly mode (no value_info / sample shapes / onnx shape inference with or without data propagation).
   NOT enumerated: shape operands that are a true run-time input (other feeds would make the host fail), dtype other than
@@ -57,6 +65,7 @@ from __future__ import annotations
 import numpy as np
 from onnx import TensorProto, numpy_helper
 
+from vf.hyp import st
 from vf.modelgen import BOOL, F16, F32, F64, I32, I64, U8, np2onnx
 from vf.rulehosts.plant import register
 
@@ -570,8 +579,6 @@ def _slice(g, flavour):
 
 
 def _PERMS(rank):
-    from vf.hyp import st
-
     return st.permutations(list(range(rank)))
 
 
